@@ -5,6 +5,7 @@ import RbV.Lemmas.MyersStep
 import RbV.Lemmas.MyersBlock
 import RbV.Lemmas.MyersLongAll
 import RbV.Lemmas.MyersLongBand
+import RbV.Thm.GenSrcHamming
 /-!
 # C09 — approximate matchers and distance functions equal the edit-distance definition
 
@@ -262,5 +263,31 @@ example : wcost (unitW eqSym) [1, 2, 3] [1, 3] [.diag, .ins, .diag] = some 1 := 
 example : acost eqSym [1, 2, 3] [1, 3] [.mat, .ins, .mat] = some 1 := by decide
 example : hamming [1, 2, 3] [1, 0, 0] = some 2 := by decide
 example : edFast (unitW eqSym) [1, 2, 3, 4] [2, 3, 4, 4] = 2 := by decide
+
+/-! ## Function bodies translated from the source text (genpm; docs/notes/GEN.md, "Translated function bodies")
+
+`RbV/Gen/Src*.lean` are regenerated from the Rust text by `tools/rs2lean.py` on every `./check C09`; the theorems below are
+re-proved against the regenerated definitions (proofs: `RbV/Thm/GenSrc*.lean`).  `Rs.Res.ok v` = the translated function
+returns `v` without panicking and without running out of loop fuel. -/
+
+/-- **`distance::hamming` of `alignment/distance.rs`, as written, is the reference `hamming`**: defined (no panic, the
+`u64` counter never overflows) exactly for strings of equal length, where it returns the reference's value; for strings
+of different length the `assert_eq!` panics, where the reference is `none`. -/
+theorem hamming_source_eq_reference (a b : List Nat) (h64 : a.length < 2 ^ 64) :
+    RbV.Gen.SrcHamming.hamming a b = match hamming a b with
+      | some d => RbV.Rs.Res.ok d
+      | none => RbV.Rs.Res.panic :=
+  RbV.Thm.GenSrcHamming.hamming_eq_model a b h64
+
+/-- generated code = specification: for strings of equal length the translated `hamming` returns, without panic, the number
+of positions at which they differ -/
+theorem hamming_source_counts (a b : List Nat) (h64 : a.length < 2 ^ 64) (hl : a.length = b.length) :
+    RbV.Gen.SrcHamming.hamming a b = RbV.Rs.Res.ok ((a.zip b).filter (fun x => x.1 != x.2)).length := by
+  have hs := (hamming_defined_iff a b).mpr hl
+  obtain ⟨d, hd⟩ := Option.isSome_iff_exists.mp hs
+  rw [hamming_source_eq_reference a b h64, hd, hamming_count a b d hd]
+
+example : RbV.Gen.SrcHamming.hamming [1, 2, 3] [1, 0, 0] = RbV.Rs.Res.ok 2 := by decide
+example : RbV.Gen.SrcHamming.hamming [1, 2, 3] [1, 0] = RbV.Rs.Res.panic := by decide
 
 end RbV.Thm.C09
